@@ -607,7 +607,7 @@ func clauseBase(name string) string {
 // conditions, which are tied to one expression of the code).
 func contractKind(kind string) bool {
 	switch kind {
-	case "ensures", "callsite", "inv-entry", "inv-preserve", "iter-ensures", "lock-held":
+	case "ensures", "callsite", "inv-entry", "inv-preserve", "iter-ensures", "lock-held", "lock-inv":
 		return true
 	}
 	return false
